@@ -504,7 +504,9 @@ def run_check(pid, tier, jobs, meta, seed=0, procs=None, job_timeout=None, extra
                 twins_replayed += 1
             continue
         if e["ok"]:
-            inconclusive.append("job %s goal %s: counterexample did NOT reproduce on real torch (encoding suspect): %s" % (j["name"], name, json.dumps(e)[:200]))
+            symd = next((f.get("detail", "") for f in o["facts"] if f["name"] == name), "")
+            inconclusive.append("job %s goal %s: counterexample did NOT reproduce on real torch (encoding suspect): %s%s" % (
+                j["name"], name, json.dumps(e)[:200], (" | under the model: %s" % symd[:260]) if symd else ""))
             continue
         key = None
         for r in o["results"]:
